@@ -1,6 +1,7 @@
 /-
 Driver command for the finer `receive` model (Model/NetFine.lean), used to sanity-test the refinement
 STATEMENT on random fine histories before proving it:
+  fine.run <fop> ; <fop> ; ...    → outputs | digest A | digest B | hands=<n>   (the fine model, for the correspondence)
   fine.sim <fop> ; <fop> ; ...    fop = any coarse op (syntax of net.run) | rget S id | rfin S id
 → "ok" if, skipping the ops that violate `respectsHands`, the abstraction of the fine run equals the coarse run
   of the projected ops (full state rendering over the ids in use) and the outputs agree; else a diagnostic.
@@ -55,6 +56,16 @@ def fineSim (guarded : Bool) (fops : List FOp) : String :=
   go finit init fops 0
 
 def netFineHandle : List String → Option String
+  | "fine.run" :: toks =>
+    -- the fine model itself, in the rendering of `net.run` (outputs, digest of the raw state, hands still open)
+    let groups := (splitSemi toks [] []).filter (· ≠ [])
+    match groups.mapM parseFOp with
+    | none => some "bad-op"
+    | some fops =>
+      let (outs, f) := frun failsDefault finit fops
+      let maxId := max f.st.a.count f.st.b.count
+      some (" ; ".intercalate (outs.map Out.render) ++ " | " ++ sideDigest "A" f.st.a maxId ++ " | " ++
+        sideDigest "B" f.st.b maxId ++ s!" | hands={f.hand.length}")
   | "fine.sim" :: toks =>
     let groups := (splitSemi toks [] []).filter (· ≠ [])
     match groups.mapM parseFOp with
